@@ -161,7 +161,15 @@ func suiteResource(r *Rng, n int, thorough bool, o *Out) {
 		id2 := "1"
 		differ := "same"
 		fields := typ.Fields()
-		switch r.IntN(7) {
+		switch r.IntN(8) {
+		case 7: // nil against empty byte strings: the same value
+			for k, at := range typ.Attrs {
+				if at.Type == jsonapi.AttrTypeBytes && !at.Nullable {
+					a.Set(k, []byte{})
+					vals2[k] = []byte(nil)
+					o.stat("equal.nil-vs-empty-bytes")
+				}
+			}
 		case 0:
 			typ2.Name = "u"
 			differ = "typename"
